@@ -254,14 +254,22 @@ def r4_context_offset(ck, cx):
                     t, pol = t.operand, not pol
                 if U(t) == 'self.zero_mode':
                     zero = pol
-            calls = [ev for ev in p.ev if ev.kind == 'call' and callee_name(ev.node) == name
-                     and isinstance(ev.node.func, ast.Attribute) and isinstance(ev.node.func.value, ast.Subscript)]
+            def _recv(ev):
+                r_ = getattr(ev, '_sub', ev.node).func.value
+                if isinstance(r_, ast.Call):
+                    inl_ = cx.pure_inline_call(r_, f.mod, c)      # self._block(fx) -> self.store[self.decode(fx)]
+                    if inl_ is not None:
+                        r_ = inl_
+                return r_
+            calls = [ev for ev in p.ev if ev.kind == 'call' and callee_name(ev.node) == name and ev.frame.fid == 0
+                     and isinstance(ev.node.func, ast.Attribute) and isinstance(getattr(ev, '_sub', ev.node).func, ast.Attribute)
+                     and isinstance(_recv(ev), ast.Subscript)]
             ck.ob('R4', f.qn, 'delegates to the block method of the same name exactly once', len(calls) == 1,
                   detail='delegation-count %d' % len(calls), loc=cx.floc(f))
             if len(calls) != 1:
                 continue
             call = calls[0]._sub
-            recv = call.func.value
+            recv = _recv(calls[0])
             ck.ob('R4', f.qn, 'block selected by self.store[self.decode(fx)]',
                   U(recv.value) == 'self.store' and U(recv.slice) == 'self.decode(%s)' % fx,
                   detail='store-key ' + U(recv), loc=cx.floc(f, calls[0].node))
